@@ -698,6 +698,7 @@ static void run_cfg(size_t item, int two, int maxlen, int dynA, size_t nA, int d
     model.max_depth = ESX_MAX_DEPTH;
     double t0 = v_now();
     esx_run(&model);
+        ESX_CYCLES(&model);
     v_out("INFO   %s: %d symbols, %.1f s", g.name, nops, v_now() - t0);
 }
 
